@@ -482,5 +482,127 @@ def scalar_method(ev, state, node, recv, name):
     return None
 
 
+def m_n0(v):
+    return T.acc(v.ty, 'n0')(v.term)
+
+
+def m_n1(v):
+    return T.acc(v.ty, 'n1')(v.term)
+
+
+def m_at(v, i, j):
+    return T.acc(v.ty, 'at')(v.term)[i, j]
+
+
+def _is_full_slice(sl):
+    return isinstance(sl, ast.Slice) and sl.lower is None and sl.upper is None and sl.step is None
+
+
 def arr2_subscript(ev, state, base, node):
-    raise Unsupported("2-D array subscript")
+    sl = node.slice
+    n0, n1 = m_n0(base), m_n1(base)
+    ety = base.ty[1]
+    if not isinstance(sl, ast.Tuple) or len(sl.elts) != 2:
+        # m[i] -> row i ; m[a:b] -> row block
+        sl = ast.Tuple(elts=[sl, ast.Slice(lower=None, upper=None, step=None)], ctx=ast.Load())
+    a, b = sl.elts
+    if not isinstance(a, ast.Slice) and not isinstance(b, ast.Slice):
+        iv, jv = ev.eval(state, a), ev.eval(state, b)
+        if iv.ty in (T.INT,) and jv.ty in (T.INT,):
+            i, j = to_int(iv), to_int(jv)
+            ev.ctx.oblige(state, z3.And(0 <= i, i < n0, 0 <= j, j < n1), 'IndexError', node,
+                          '2-D index in range (negative indices not modelled)')
+            return SymVal(ety, m_at(base, i, j))
+        raise Unsupported("2-D fancy read")
+    if _is_full_slice(b) and not isinstance(a, ast.Slice):
+        iv = ev.eval(state, a)
+        if iv.ty == T.INT:
+            i = to_int(iv)
+            ev.ctx.oblige(state, z3.And(0 <= i, i < n0), 'IndexError', node, 'row index in range')
+            r = fresh(T.TArr(ety), 'row')
+            k = z3.Int(fresh_name('k'))
+            state.assume(seq_len(r) == n1,
+                         z3.ForAll([k], z3.Implies(z3.And(0 <= k, k < n1), seq_at(r, k) == m_at(base, i, k))))
+            return r
+        if iv.ty[0] in ('arr', 'list') and iv.ty[1] == T.INT:
+            m = seq_len(iv)
+            k, c = z3.Int(fresh_name('k')), z3.Int(fresh_name('c'))
+            ev.ctx.oblige(state, z3.ForAll([k], z3.Implies(z3.And(0 <= k, k < m),
+                                                           z3.And(0 <= seq_at(iv, k), seq_at(iv, k) < n0))),
+                          'IndexError', node, 'row indices in range')
+            r = fresh(base.ty, 'rows')
+            state.assume(m_n0(r) == m, m_n1(r) == n1,
+                         z3.ForAll([k, c], z3.Implies(z3.And(0 <= k, k < m, 0 <= c, c < n1),
+                                                      m_at(r, k, c) == m_at(base, seq_at(iv, k), c))))
+            return r
+        raise Unsupported("2-D row selection")
+    if isinstance(a, ast.Slice) and _is_full_slice(b):
+        lo, hi = ev.slice_bounds(state, n0, a)
+        r = fresh(base.ty, 'rowblock')
+        k, c = z3.Int(fresh_name('k')), z3.Int(fresh_name('c'))
+        ln = z3.If(hi > lo, hi - lo, 0)
+        state.assume(m_n0(r) == ln, m_n1(r) == n1,
+                     z3.ForAll([k, c], z3.Implies(z3.And(0 <= k, k < ln, 0 <= c, c < n1),
+                                                  m_at(r, k, c) == m_at(base, lo + k, c))))
+        return r
+    raise Unsupported("2-D subscript form")
+
+
+def arr2_store(ev, state, base, target, v, node):
+    sl = target.slice
+    n0, n1 = m_n0(base), m_n1(base)
+    ety = base.ty[1]
+    if not isinstance(sl, ast.Tuple) or len(sl.elts) != 2:
+        raise Unsupported("2-D store form")
+    a, b = sl.elts
+    r = fresh(base.ty, 'mstore')
+    x, y = z3.Int(fresh_name('x')), z3.Int(fresh_name('y'))
+    k, k2 = z3.Int(fresh_name('k')), z3.Int(fresh_name('k2'))
+    if isinstance(a, ast.Slice):
+        raise Unsupported("2-D block store")
+    iv = ev.eval(state, a)
+    if iv.ty != T.INT:
+        raise Unsupported("2-D store row index")
+    i = to_int(iv)
+    ev.ctx.oblige(state, z3.And(0 <= i, i < n0), 'IndexError', node, 'row index in range')
+    if _is_full_slice(b):
+        if v.ty[0] not in ('arr', 'list'):
+            raise Unsupported("row store of scalar")
+        ev.ctx.oblige(state, seq_len(v) == n1, 'ValueError', node, 'row has the width of the matrix')
+        state.assume(m_n0(r) == n0, m_n1(r) == n1,
+                     z3.ForAll([x, y], z3.Implies(z3.And(0 <= x, x < n0, 0 <= y, y < n1),
+                                                  m_at(r, x, y) == z3.If(x == i, seq_at(v, y), m_at(base, x, y)))))
+        return r
+    jv = ev.eval(state, b)
+    if jv.ty == T.INT:
+        j = to_int(jv)
+        ev.ctx.oblige(state, z3.And(0 <= j, j < n1), 'IndexError', node, 'column index in range')
+        val = coerce(v, ety).term
+        state.assume(m_n0(r) == n0, m_n1(r) == n1,
+                     z3.ForAll([x, y], z3.Implies(z3.And(0 <= x, x < n0, 0 <= y, y < n1),
+                                                  m_at(r, x, y) == z3.If(z3.And(x == i, y == j), val, m_at(base, x, y)))))
+        return r
+    if jv.ty[0] in ('arr', 'list') and jv.ty[1] == T.INT:
+        m = seq_len(jv)
+        ev.ctx.oblige(state, z3.ForAll([k], z3.Implies(z3.And(0 <= k, k < m),
+                                                       z3.And(0 <= seq_at(jv, k), seq_at(jv, k) < n1))),
+                      'IndexError', node, 'column indices in range')
+        if v.ty[0] in ('arr', 'list'):
+            ev.ctx.oblige(state, seq_len(v) == m, 'ValueError', node, 'one value per column index')
+            val = lambda kk: seq_at(v, kk)
+        else:
+            sv = coerce(v, ety).term
+            val = lambda kk: sv
+        hit = z3.Function(fresh_name('hit'), z3.IntSort(), z3.IntSort())   # column -> last k writing it
+        state.assume(
+            m_n0(r) == n0, m_n1(r) == n1,
+            # untouched cells
+            z3.ForAll([x, y], z3.Implies(z3.And(0 <= x, x < n0, 0 <= y, y < n1,
+                                                z3.Or(x != i, z3.ForAll([k], z3.Implies(z3.And(0 <= k, k < m), seq_at(jv, k) != y)))),
+                                         m_at(r, x, y) == m_at(base, x, y))),
+            # written cells: the last write wins
+            z3.ForAll([k], z3.Implies(z3.And(0 <= k, k < m,
+                                             z3.ForAll([k2], z3.Implies(z3.And(k < k2, k2 < m), seq_at(jv, k2) != seq_at(jv, k)))),
+                                      m_at(r, i, seq_at(jv, k)) == val(k))))
+        return r
+    raise Unsupported("2-D store column index")
